@@ -28,7 +28,9 @@ def cases(tier, seed):
              ("pp", "ph,pphh", "ia,jkbc", 2), ("pp", "pphh,pphh", "ijab,klcd", 0),
              ("pp", "pphh,pphh", "ijab,klcd", 1),
              ("ip", "h,h", "i,j", 0), ("ip", "h,h", "i,j", 2), ("ea", "p,p", "a,b", 2),
-             ("ip", "h,phh", "i,jka", 1), ("ip", "h,phh", "i,jka", 2)]
+             ("ip", "h,phh", "i,jka", 1), ("ip", "h,phh", "i,jka", 2),
+             # lower classes with different numbers of occupied and virtual indices
+             ("dip", "hh,phhh", "ij,klma", 2), ("dea", "ppph,pp", "iabc,de", 2)]
     for v, b, i, n in quick:
         yield {"variant": v, "block": b, "indices": i, "order": n, "singles": False, "kind": "isr"}
     yield {"variant": "pp", "block": "ph,ph", "indices": "ia,jb", "order": 2, "singles": True, "kind": "isr"}
@@ -66,7 +68,11 @@ def check(case):
     obj = isr(case["variant"], case["singles"])
     bra_idx, ket_idx = case["indices"].split(",")
     n = case["order"]
-    model = Model(orbital_space(1, 1), seed=11, alias=lambda nm: nm.replace("cc", ""))
+    # enough spin orbitals that no class vanishes identically (Pauli principle)
+    need_o = max(sp.count("h") for sp in case["block"].split(","))
+    need_v = max(sp.count("p") for sp in case["block"].split(","))
+    model = Model(orbital_space(2 if need_o > 2 else 1, 2 if need_v > 2 else 1), seed=11,
+                  alias=lambda nm: nm.replace("cc", ""))
     targets = get_symbols(bra_idx) + get_symbols(ket_idx)
     if case["kind"] == "precursor-sym":
         a = obj.overlap_precursor(n, case["block"], case["indices"])
@@ -100,6 +106,6 @@ CHECKS = {
     "overlap_isr.orthonormal": {
         "function": "adcgen.intermediate_states:IntermediateStates.precursor",
         "cases": cases, "check": check,
-        "bound": "pp/ip/ea (thorough: dip) blocks singles/doubles, orders 0..2 (3 for ph,ph in thorough), ground states without and (ph/pphh, h/phh blocks, orders 1-2) with first order singles, random amplitudes, 2 occ + 2 virt spin orbitals, all target assignments",
+        "bound": "pp/ip/ea/dip/dea blocks singles/doubles, orders 0..2 (3 for ph,ph in thorough), ground states without and (ph/pphh, h/phh blocks, orders 1-2) with first order singles, random amplitudes, 2 occ + 2 virt spin orbitals (4 where a class has three indices of a space), all target assignments",
     },
 }
